@@ -199,3 +199,175 @@ Section Totals.
     - intros ky Hky. rewrite csum_scal, (delta_sum ky Hky). reflexivity.
   Qed.
 End Totals.
+
+(* ---------- 1-D transform pair on Z_N: inversion and the convolution theorem ---------- *)
+
+Lemma csum_shift1 (f : nat -> C) n : csum (fun x => f (S x)) n + f 0%nat = csum f (S n).
+Proof. induction n as [|n IH]; [simpl; ring|]. cbn [csum] in *. rewrite <- IH. ring. Qed.
+
+Section Transform.
+  Variable N : nat.
+  Hypothesis HN : (0 < N)%nat.
+  Let w := wN N.
+
+  Lemma wNN : w ^^ N = 1.
+  Proof. apply wN_pow_N. assumption. Qed.
+
+  Lemma w_period a : w ^^ (a + N) = w ^^ a.
+  Proof. rewrite Cpow_add, wNN. ring. Qed.
+
+  Lemma w_mult_N a q : w ^^ (a + q * N) = w ^^ a.
+  Proof.
+    induction q as [|q IH]; [rewrite Nat.add_0_r; reflexivity|].
+    replace (a + S q * N)%nat with (a + q * N + N)%nat by lia. rewrite w_period. exact IH.
+  Qed.
+
+  Lemma w_mod a : w ^^ a = w ^^ (a mod N).
+  Proof.
+    rewrite (Nat.div_mod a N) at 1 by lia. rewrite Nat.add_comm, Nat.mul_comm. apply w_mult_N.
+  Qed.
+
+  Lemma w_one_iff a : w ^^ a = 1 <-> a mod N = 0%nat.
+  Proof.
+    rewrite w_mod. assert (Hlt : (a mod N < N)%nat) by (apply Nat.mod_upper_bound; lia).
+    split.
+    - intros H. destruct (Nat.eq_dec (a mod N) 0) as [E|E]; [assumption|].
+      exfalso. apply (wN_primitive N (a mod N)); [lia|assumption].
+    - intros ->. reflexivity.
+  Qed.
+
+  (* sum_{k<N} w^(k d) = N if N | d, else 0 *)
+  Lemma geom_any d : csum (fun k => w ^^ (k * d)) N = if Nat.eqb (d mod N) 0 then INR N else 0.
+  Proof.
+    rewrite (csum_ext _ (fun k => w ^^ ((d mod N) * k))).
+    2:{ intros k _. rewrite (Nat.mul_comm k d), Cpow_mul, (w_mod d), <- Cpow_mul. reflexivity. }
+    apply delta_sum; [assumption|]. apply Nat.mod_upper_bound. lia.
+  Qed.
+
+  (* forward transform with exp(-2 pi i k x / N) = w^((N-1) k x), inverse with w^(k x) / N *)
+  Definition dft (a : nat -> C) (k : nat) : C := csum (fun x => a x * w ^^ ((N - 1) * (k * x))) N.
+  Definition idft (A : nat -> C) (x : nat) : C := / INR N * csum (fun k => A k * w ^^ (k * x)) N.
+
+  Lemma kernel_match x y : (x < N)%nat -> (y < N)%nat -> ((x + (N - 1) * y) mod N = 0)%nat <-> x = y.
+  Proof.
+    intros Hx Hy. destruct y as [|y].
+    - rewrite Nat.mul_0_r, Nat.add_0_r, Nat.mod_small by lia. reflexivity.
+    - replace (x + (N - 1) * S y)%nat with ((x + (N - S y)) + y * N)%nat by nia.
+      rewrite Nat.mod_add by lia.
+      split.
+      + intros H. destruct (Nat.lt_ge_cases (x + (N - S y)) N) as [L|G].
+        * rewrite Nat.mod_small in H by lia. lia.
+        * assert (E : ((x + (N - S y)) mod N = x + (N - S y) - N)%nat).
+          { replace (x + (N - S y))%nat with ((x + (N - S y) - N) + 1 * N)%nat at 1 by lia. rewrite Nat.mod_add by lia. apply Nat.mod_small. lia. }
+          rewrite E in H. lia.
+      + intros ->. replace (S y + (N - S y))%nat with (0 + 1 * N)%nat by lia. rewrite Nat.mod_add by lia. apply Nat.mod_small. lia.
+  Qed.
+
+  Lemma csum_pick_at (f : nat -> C) (a : C) x n : (x < n)%nat ->
+    csum (fun y => f y * (if Nat.eqb y x then a else 0)) n = f x * a.
+  Proof.
+    induction n as [|n IH]; intros Hx; [lia|].
+    cbn [csum]. destruct (Nat.eq_dec x n) as [->|Hne].
+    - rewrite Nat.eqb_refl. rewrite (csum_ext _ (fun _ => 0)); [rewrite csum_zero; ring|].
+      intros y Hy. destruct (Nat.eqb_spec y n); [lia|ring].
+    - rewrite IH by lia. destruct (Nat.eqb_spec n x); [lia|ring].
+  Qed.
+
+  (* the inverse transform recovers the signal *)
+  Theorem idft_dft a x : (x < N)%nat -> idft (dft a) x = a x.
+  Proof.
+    intros Hx. unfold idft, dft.
+    assert (Hn : (INR N : C) <> 0) by (intros E; apply (f_equal fst) in E; cbn in E; apply (not_0_INR N); [lia|assumption]).
+    rewrite (csum_ext _ (fun k => csum (fun y => a y * w ^^ (k * (x + (N - 1) * y))) N)).
+    2:{ intros k _. rewrite Cmult_comm, <- csum_scal. apply csum_ext. intros y _.
+        replace (k * (x + (N - 1) * y))%nat with (k * x + (N - 1) * (k * y))%nat by nia.
+        rewrite Cpow_add. ring. }
+    rewrite csum_swap.
+    rewrite (csum_ext _ (fun y => a y * (if Nat.eqb y x then INR N else 0))).
+    2:{ intros y Hy. rewrite csum_scal. f_equal. rewrite geom_any.
+        destruct (kernel_match x y Hx Hy) as [K1 K2].
+        destruct (Nat.eqb_spec ((x + (N - 1) * y) mod N) 0) as [E|E].
+        - rewrite <- (K1 E). rewrite Nat.eqb_refl. reflexivity.
+        - destruct (Nat.eqb_spec y x) as [Eyx|_]; [|reflexivity]. exfalso. apply E. apply K2. symmetry. assumption. }
+    rewrite (csum_pick_at a (INR N) x N Hx). field. assumption.
+  Qed.
+End Transform.
+
+Section Convolution.
+  Variable N : nat.
+  Hypothesis HN : (0 < N)%nat.
+  Let w := wN N.
+
+  (* sums over Z_N are invariant under rotation of the index *)
+  Lemma csum_rot1 (f : nat -> C) : csum (fun x => f ((x + 1) mod N)) N = csum f N.
+  Proof.
+    destruct N as [|n]; [lia|]. clear HN w.
+    rewrite <- (csum_shift1 f n).
+    change (csum (fun x => f ((x + 1) mod S n)) (S n)) with (csum (fun x => f ((x + 1) mod S n)) n + f ((n + 1) mod S n)).
+    f_equal.
+    - apply csum_ext. intros x Hx. rewrite Nat.mod_small by lia. f_equal. lia.
+    - replace (n + 1)%nat with (S n) by lia. rewrite Nat.mod_same by lia. reflexivity.
+  Qed.
+
+  Lemma csum_rot (f : nat -> C) s : csum (fun x => f ((x + s) mod N)) N = csum f N.
+  Proof.
+    induction s as [|s IH].
+    - apply csum_ext. intros x Hx. rewrite Nat.add_0_r, Nat.mod_small by lia. reflexivity.
+    - rewrite <- IH. rewrite <- (csum_rot1 (fun z => f ((z + s) mod N))).
+      apply csum_ext. intros x _. f_equal. rewrite Nat.add_mod_idemp_l by lia. f_equal. lia.
+  Qed.
+
+  (* circular convolution on Z_N *)
+  Definition circ_conv (a b : nat -> C) (x : nat) : C := csum (fun y => a y * b ((x + (N - y)) mod N)) N.
+
+  Lemma kernel_periodic k m : w ^^ ((N - 1) * (k * (m mod N))) = w ^^ ((N - 1) * (k * m)).
+  Proof.
+    unfold w. rewrite (w_mod N HN ((N - 1) * (k * (m mod N)))), (w_mod N HN ((N - 1) * (k * m))). f_equal.
+    rewrite !Nat.mul_assoc. rewrite Nat.mul_mod_idemp_r by lia. reflexivity.
+  Qed.
+
+  (* convolution theorem: the transform of a circular convolution is the product of the transforms *)
+  Theorem dft_circ_conv a b k : dft N (circ_conv a b) k = dft N a k * dft N b k.
+  Proof.
+    unfold dft, circ_conv. fold w.
+    rewrite (csum_ext _ (fun x => csum (fun y => a y * (b ((x + (N - y)) mod N) * w ^^ ((N - 1) * (k * x)))) N)).
+    2:{ intros x _. rewrite Cmult_comm, <- csum_scal. apply csum_ext. intros y _. ring. }
+    rewrite csum_swap.
+    rewrite (csum_ext _ (fun y => (a y * w ^^ ((N - 1) * (k * y))) * csum (fun z => b z * w ^^ ((N - 1) * (k * z))) N)).
+    - rewrite <- (csum_ext (fun y => csum (fun z => b z * w ^^ ((N - 1) * (k * z))) N * (a y * w ^^ ((N - 1) * (k * y)))));
+        [|intros; ring]. rewrite csum_scal. ring.
+    - intros y Hy. rewrite csum_scal.
+      assert (Claim : csum (fun x => b ((x + (N - y)) mod N) * w ^^ ((N - 1) * (k * x))) N =
+                      w ^^ ((N - 1) * (k * y)) * csum (fun z => b z * w ^^ ((N - 1) * (k * z))) N).
+      { rewrite <- csum_scal.
+        rewrite <- (csum_rot (fun z => w ^^ ((N - 1) * (k * y)) * (b z * w ^^ ((N - 1) * (k * z)))) (N - y)).
+        apply csum_ext. intros x Hx.
+        rewrite (Cmult_comm (w ^^ ((N - 1) * (k * y)))), <- Cmult_assoc. f_equal.
+        rewrite <- Cpow_add.
+        replace ((N - 1) * (k * ((x + (N - y)) mod N)) + (N - 1) * (k * y))%nat with ((N - 1) * (k * ((x + (N - y)) mod N + y)))%nat by nia.
+        rewrite <- (kernel_periodic k ((x + (N - y)) mod N + y)).
+        rewrite Nat.add_mod_idemp_l by lia.
+        replace (x + (N - y) + y)%nat with (x + 1 * N)%nat by lia. rewrite Nat.mod_add by lia.
+        rewrite kernel_periodic. reflexivity. }
+      rewrite Claim. ring.
+  Qed.
+End Convolution.
+
+(* FFT convolution IS spatial circular convolution (1-D, complex transform on Z_N) *)
+Theorem conv_via_dft N a b x : (0 < N)%nat -> (x < N)%nat ->
+  idft N (fun k => dft N a k * dft N b k) x = circ_conv N a b x.
+Proof.
+  intros HN Hx. rewrite <- (idft_dft N HN (circ_conv N a b) x Hx).
+  unfold idft. f_equal. apply csum_ext. intros k _. rewrite (dft_circ_conv N HN a b k). reflexivity.
+Qed.
+
+(* a unit impulse at position p: convolving with it circularly shifts the signal by p *)
+Definition delta_at (p : nat) (x : nat) : C := if Nat.eqb x p then 1 else 0.
+
+Lemma circ_conv_delta N p b x : (0 < N)%nat -> (p < N)%nat ->
+  circ_conv N (delta_at p) b x = b ((x + (N - p)) mod N).
+Proof.
+  intros HN Hp. unfold circ_conv, delta_at.
+  rewrite (csum_ext _ (fun y => b ((x + (N - y)) mod N) * (if Nat.eqb y p then 1 else 0))); [|intros; ring].
+  rewrite (csum_pick_at N) by assumption. ring.
+Qed.
